@@ -72,6 +72,49 @@ pub fn check(t: &Trace<'_>, out: &mut CaseOut) -> bool {
             }
         }
     }
+    // capacity is recovered by every acknowledgement: a retained entry whose acknowledgement the
+    // client consumed (with whatever reason code) is gone when the call returns
+    if !t.log.hostile {
+        for (ev, e) in w.events.iter().enumerate() {
+            let Ev::Consumed { conn, idx } = e else { continue };
+            use crate::refcodec::SPacket;
+            let (pid, want_type) = match &w.conns[*conn].in_pkts[*idx].pkt {
+                Some(SPacket::PubAck { pid, .. }) | Some(SPacket::PubRec { pid, .. }) => (*pid, 3u8),
+                Some(SPacket::SubAck { pid, .. }) => (*pid, 8),
+                Some(SPacket::UnsubAck { pid, .. }) => (*pid, 10),
+                _ => continue,
+            };
+            let Some(opi) = t.op_at(ev) else { continue };
+            let op = &t.log.ops[opi];
+            // the call processed the packet (it may report the reason code as an error)
+            let processed = matches!(op.outcome, crate::exec::Outcome::Ok(_) | crate::exec::Outcome::Err(crate::exec::ErrRepr::Rejected(_)));
+            if !processed || !t.conns[*conn].stream_ok {
+                continue;
+            }
+            let Some(before) = t.log.probes.iter().rev().find(|p| p.ev < op.ev_call) else { continue };
+            let Some(after) = t.log.probes.iter().find(|p| p.ev > op.ev_ret) else { continue };
+            let held = |p: &crate::exec::ProbeRec| p.arena.iter().find(|(id, b)| *id == pid && b.first().is_some_and(|b0| b0 >> 4 == want_type)).map(|(_, b)| b.clone());
+            let (Some(b), Some(a)) = (held(before), held(after)) else {
+                if held(before).is_some() {
+                    out.count("acknowledged_entries_freed", 1);
+                }
+                continue;
+            };
+            // the same packet is still there (a new request cannot get the identifier this fast)
+            if a[1..] == b[1..] && t.epoch_at[before.ev] == t.epoch_at[after.ev] {
+                let failing = match &w.conns[*conn].in_pkts[*idx].pkt {
+                    Some(SPacket::SubAck { codes, .. }) | Some(SPacket::UnsubAck { codes, .. }) => codes.iter().any(|c| *c >= 0x80),
+                    Some(SPacket::PubAck { reason, .. }) | Some(SPacket::PubRec { reason, .. }) => reason.unwrap_or(0) >= 0x80,
+                    _ => false,
+                };
+                out.violations.push(viol(
+                    "C17",
+                    format!("C17/ack-did-not-free/{}{}", match want_type { 3 => "PUBLISH", 8 => "SUBSCRIBE", _ => "UNSUBSCRIBE" }, if failing { "/failing-reason" } else { "" }),
+                    format!("{} consumed the acknowledgement for id {} on conn {} (outcome {:?}) but the packet still occupies the arena afterwards", op.kind, pid, conn, op.outcome),
+                ));
+            }
+        }
+    }
     out.count("compactions_moving_entries", compactions);
     if compactions > 0 {
         nontrivial = true;
